@@ -142,10 +142,20 @@ func (c01) Gen(r *kern.Rng, tier string, idx int) *Trace {
 				sc.Data.Len = r.Pick(300, 1000, 2600, 4200, 7000, 20000, 30000) + r.Intn(300)
 			}
 		}
-		if r.Pct(20) && sc.Level != -2 {
-			// sparse-file shape: the head length sweeps across the point where the token buffer fills
-			sc.Data.Kind, sc.Data.P1, sc.Data.P2 = "head_run", r.Pick(20000, 70000), r.Pick(0, 7, 300)
-			sc.Data.Len = sc.Data.P1 + r.Pick(1, 2)*32767 - 350
+		if q := idx / 197; q%4 == 0 || (r.Pct(10) && sc.Level != -2) {
+			// sparse-file shape: the length of the incompressible head sweeps across the point where the token
+			// buffer fills (32767 tokens: one literal per token in the portable finder, two at the assembly levels),
+			// and a long repeat starts there. Every fourth sweep is of this kind and they cycle through both
+			// constructors, levels 1 and 2/default, and both head lengths.
+			sc.Data.Kind, sc.Data.P1, sc.Data.P2 = "head_run", r.Pick(20000, 70000), r.Pick(0, 0, 7, 300)
+			k := r.Pick(1, 2)
+			if q%4 == 0 {
+				c := q / 4
+				sc.Ctor = []string{"new", "4k"}[c%2]
+				sc.Level = []int{1, 2, 1, -1}[(c/2)%4]
+				k = 1 + (c/4)%2
+			}
+			sc.Data.Len = sc.Data.P1 + k*32767 - 350 + r.Intn(60)
 		}
 		sc.Ops = []scen.WOp{{K: "w", N: 1 << 30}, {K: "c"}}
 		if r.Pct(30) {
